@@ -11,7 +11,7 @@ RELEASE_PROFILE = True
 
 
 MANIFEST = {
-    "text": "Static panic-site audit over every non-derived body of the library (all are reachable from the public API): every Assert terminator (bounds, overflow, div/rem) and every call to a panicking std API (unwrap/expect, Index, Vec::remove/insert, copy_from_slice, explicit panic!) must be discharged by a dominating guard of a recognised class (presence test of the same place with no intervening write, ensure-present-then-get, induction variable of 0..len, constant index, unread-after-successful-read, comparison guard) or by a reviewed exception keyed by function and operand signature; plus a recursion audit of the call graph (SCC table with depth bounds), null-guard dominance in the extern C functions and the bounded-write invariants the guards rely on.",
+    "text": "Static panic-site audit over every non-derived body of the library (all are reachable from the public API): every Assert terminator (bounds, overflow, div/rem) and every call to a panicking std API (unwrap/expect, Index, Vec::remove/insert, copy_from_slice, explicit panic!) must be discharged by a dominating guard of a recognised class (presence test of the same place with no intervening write, ensure-present-then-get, induction variable of 0..len, constant index, unread-after-successful-read, comparison guard) or by a reviewed exception keyed by function and operand signature; plus a recursion audit of the call graph (SCC table with depth bounds), null-guard dominance in the extern C functions and the bounded-write invariants the guards rely on. Also: loops whose exit test reads local variables make progress on every iteration (R07.6), the regex nest limit is not lifted (R07.7), chrono's to_rfc2822 precondition.",
     "technique": "static analysis: panic-site inventory with guard dominance over MIR, SCC audit of the resolved call graph",
 }
 
